@@ -32,6 +32,17 @@ impl Driven for D {
          _ => panic!("verif harness: unknown relation {}", rel),
       }
    }
+   fn clear(&mut self, rel: &str) {
+      match rel {
+         "e" => { self.0.e = Default::default(); },
+         "node" => { self.0.node = Default::default(); },
+         "blocked" => { self.0.blocked = Default::default(); },
+         "two" => { self.0.two = Default::default(); },
+         "c3" => { self.0.c3 = Default::default(); },
+         "s3" => { self.0.s3 = Default::default(); },
+         _ => panic!("verif harness: unknown relation {}", rel),
+      }
+   }
    fn run(&mut self) { self.0.run(); }
    fn run_timeout(&mut self, nanos: u64) -> Option<bool> { Some(self.0.run_timeout(std::time::Duration::from_nanos(nanos))) }
    fn dump(&self) -> Value {
